@@ -55,6 +55,13 @@ def cases(ctx):
                 if pn not in names:
                     fl[f] = False
         off = R.choice(gen.DATE_OFFSETS)
+        if i % 6 == 0:
+            # calendar boundary mode: old and new date both within a fortnight of New Year (week 0 / 52 / 53,
+            # ISO year change, quarter and month roll-over), small offsets in both directions
+            y = R.randint(2001, 2097)
+            d = dt.date(y, 12, 18) + dt.timedelta(R.randint(0, 28))
+            st.update(ref.cal_from_date(d))
+            off = R.randint(-12, 12)
         try:
             date = d + dt.timedelta(off)
         except OverflowError:
